@@ -9,8 +9,12 @@
 use crate::util::*;
 use crate::with_d;
 use easy_ml::matrices::Matrix;
-use easy_ml::tensors::indexing::{TensorAccess, TensorOwnedIterator};
-use easy_ml::tensors::views::{TensorMut, TensorRef, TensorView};
+use easy_ml::tensors::indexing::{
+    TensorAccess, TensorIterator, TensorOwnedIterator, TensorReferenceIterator, TensorReferenceMutIterator,
+};
+use easy_ml::tensors::views::{
+    IndexRange, TensorMask, TensorMut, TensorRange, TensorRef, TensorReverse, TensorView,
+};
 use easy_ml::tensors::Tensor;
 use std::cell::Cell;
 
@@ -230,6 +234,66 @@ fn log_access<const D: usize>(t: &mut Tensor<u64, D>, names: &[&'static str], fl
             })
         }
         _ => "bad-flavour".into(),
+    }
+}
+
+/// iteration of the requested flavour over any (view) source
+fn log_source<S: TensorMut<u64, D>, const D: usize>(mut v: S, flavour: &str, limit: usize) -> String {
+    match flavour {
+        "copy" => logged("tensor", || TensorIterator::from(&v).take(limit).for_each(drop)),
+        "ref" => logged("tensor", || TensorReferenceIterator::from(&v).take(limit).for_each(drop)),
+        "mut" => logged("tensor", || TensorReferenceMutIterator::from(&mut v).take(limit).for_each(drop)),
+        "owned" => logged("tensor", || TensorOwnedIterator::from(v).take(limit).for_each(drop)),
+        _ => "bad-flavour".into(),
+    }
+}
+
+/// `range:<name>.<start>.<len>` | `mask:<name>.<start>.<len>` | `reverse:<name>` over the tensor
+fn log_view<const D: usize>(t: &mut Tensor<u64, D>, adaptor: &str, flavour: &str) -> String {
+    let limit = storage_len(t).saturating_add(2).min(1 << 20);
+    let (kind, spec) = adaptor.split_once(':').expect("adaptor");
+    // the owning iterator leaves placeholders behind: it gets a clone
+    let mut copy;
+    let target: &mut Tensor<u64, D> = if flavour == "owned" {
+        copy = t.clone();
+        &mut copy
+    } else {
+        t
+    };
+    let shape = target.shape();
+    match kind {
+        "range" | "mask" => {
+            let parts: Vec<&str> = spec.split('.').collect();
+            let name = intern(parts[0]);
+            let (start, len): (usize, usize) = (parts[1].parse().unwrap(), parts[2].parse().unwrap());
+            let mut all: [Option<IndexRange>; D] = std::array::from_fn(|_| None);
+            match shape.iter().position(|d| d.0 == name) {
+                Some(d) => all[d] = Some(IndexRange::new(start, len)),
+                None => return "rejected".into(),
+            }
+            if kind == "range" {
+                match catch(|| TensorRange::from_all(&mut *target, all).ok()) {
+                    Ok(Some(v)) => log_source(v, flavour, limit),
+                    Ok(None) => "rejected".into(),
+                    Err(k) => panic_str(k),
+                }
+            } else {
+                match catch(|| TensorMask::from_all(&mut *target, all).ok()) {
+                    Ok(Some(v)) => log_source(v, flavour, limit),
+                    Ok(None) => "rejected".into(),
+                    Err(k) => panic_str(k),
+                }
+            }
+        }
+        "reverse" => {
+            let name = intern(spec);
+            match catch(|| TensorReverse::from(&mut *target, &[name])) {
+                Ok(v) => log_source(v, flavour, limit),
+                Err(PanicKind::Explicit) => "rejected".into(),
+                Err(k) => panic_str(k),
+            }
+        }
+        _ => "bad-adaptor".into(),
     }
 }
 
@@ -576,6 +640,7 @@ impl Runner {
                 let names = parse_names(toks[1]);
                 on_t!(any, t => log_access(t, &names, toks[2]))
             }
+            "log_view" => on_t!(any, t => log_view(t, toks[1], toks[2])),
             _ => {
                 let d = on_t!(any, t => mutate(t, toks));
                 if let Some(t2) = d.replace {
@@ -762,6 +827,22 @@ fn emit_observations(g: &mut Gen, cur: &Cur, all: bool) {
         let wi = g.rng.chance(1, 3);
         g.count(&format!("log.tensor.{}", f));
         g.op(format!("log {}{}", f, if wi { " wi=1" } else { "" }));
+    }
+    if d >= 1 && (all || g.rng.chance(1, 2)) {
+        // a view adaptor between the iterator and the leaf: range / mask / reverse on one dimension
+        let i = g.rng.below(d);
+        let (name, len) = (cur.names[i], cur.lens[i]);
+        let name = if g.rng.chance(1, 10) { "zz" } else { name };
+        let start = g.rng.below(len + 1);
+        let l = g.rng.below(len + 2);
+        let kind = *g.rng.pick(&["range", "mask", "reverse"]);
+        let f = *g.rng.pick(&FLAVOURS);
+        g.count(&format!("log.view.{}.{}", kind, f));
+        if kind == "reverse" {
+            g.op(format!("log_view reverse:{} {}", name, f));
+        } else {
+            g.op(format!("log_view {}:{}.{}.{} {}", kind, name, start, l, f));
+        }
     }
     if all || g.rng.chance(1, 2) {
         let mut ns = cur.names.clone();
